@@ -606,6 +606,11 @@ var c15RefuseArgs = []proto.Arg{
 	{T: "[][]uint8", E: []proto.Arg{{T: "[]uint8", E: []proto.Arg{{T: "uint8", I: 1}}}}}, {T: "[1]bool", E: []proto.Arg{{T: "bool"}}},
 }
 
+// c15Trailing: texts that follow the full stop of the term Query reads (Query reads one term). The placeholders of the
+// term read are the ones that count; where the trailing text has placeholders of its own, a call is only asserted when
+// the number of arguments matches neither count.
+var c15Trailing = []string{"true .", "foo", ".", "% comment\n x .", "Y = ? .", "Y = ? , Z = [?] .", "Y = 1 . Z = ? ."}
+
 func placeholders(k int) string {
 	if k == 0 {
 		return "a"
@@ -726,6 +731,12 @@ func (c *c15) buildPlan(cx *Ctx) {
 				for exec := 0; exec < 2; exec++ {
 					mms = append(mms, mm{k, n, kind, exec})
 				}
+				// Query with more text after the full stop of the term it reads (exec = 2 + index of the trailing text)
+				for tr := range c15Trailing {
+					if (k+n+kind+tr)%2 == 0 || k != n {
+						mms = append(mms, mm{k, n, kind, 2 + tr})
+					}
+				}
 			}
 		}
 	}
@@ -744,12 +755,20 @@ func (c *c15) buildPlan(cx *Ctx) {
 			}
 		}
 		c := &proto.Case{Kind: "goapi", Flags: [][2]string{{"double_quotes", c15Flags[i%3]}}}
-		if m.exec == 1 {
+		trailing := -1
+		if m.exec >= 2 {
+			trailing = m.exec - 2
+			c.Steps = []proto.Step{{Query: "X = " + placeholders(m.k) + " . " + c15Trailing[trailing], Args: args, Max: 3}}
+		} else if m.exec == 1 {
 			c.Steps = []proto.Step{{Exec: "foo(" + placeholders(m.k) + ") .", Args: args}, {Query: "foo(X) .", Max: 3}}
 		} else {
 			c.Steps = []proto.Step{{Query: "X = " + placeholders(m.k) + " .", Args: args, Max: 3}}
 		}
-		meta, _ := json.Marshal(&c15Meta{Part: "mismatch", Family: "count", Flag: c15Flags[i%3], NPh: []int{m.k, m.n}})
+		nph := []int{m.k, m.n}
+		if trailing >= 0 {
+			nph = append(nph, strings.Count(c15Trailing[trailing], "?"))
+		}
+		meta, _ := json.Marshal(&c15Meta{Part: "mismatch", Family: "count", Flag: c15Flags[i%3], NPh: nph})
 		return &Item{Cases: []*proto.Case{c}, Meta: meta, Note: fmt.Sprintf("%d placeholders, %d arguments", m.k, m.n)}
 	})
 	// 9. Go types outside the statement: must not panic
@@ -1105,10 +1124,16 @@ func (c *c15) judgeMismatch(m *c15Meta, it *Item, o *run.Outcome) Verdict {
 		return *v
 	}
 	steps, res := it.Cases[0].Steps, o.Res
-	if len(res.Steps) != len(steps) || len(m.NPh) != 2 {
+	if len(res.Steps) != len(steps) || len(m.NPh) < 2 {
 		return Verdict{Status: Inconclusive, Msg: "step count mismatch between case and result"}
 	}
 	k, n := m.NPh[0], m.NPh[1]
+	if len(m.NPh) == 3 {
+		// Query text with more text after the term: only a mismatch under both ways of counting is asserted
+		if n == k || n == k+m.NPh[2] {
+			return Verdict{Status: Held, Extra: map[string]int64{"count_trailing_text_not_asserted": 1}}
+		}
+	}
 	st, sr := &steps[0], &res.Steps[0]
 	v := Verdict{Status: Held, Extra: map[string]int64{}}
 	var argsText []string
